@@ -1,6 +1,7 @@
 //! C17 — results do not depend on the component representation (see DESIGN.md §4 C17).
 mod alphaconv;
 mod conv;
+mod dark;
 mod graphs;
 mod hue;
 mod lat;
@@ -135,6 +136,14 @@ fn replay(c: &mut Collector, rep: &Value) {
             all.viol.retain(|k, _| *k == want);
             c.merge(all);
         }
+        "dark-relative" => {
+            let ctx = Ctx { only: Some(format!("dark-relative/{vec}")), ..Ctx::from_args("C17").0 };
+            let mut all = Collector::new();
+            dark::run(&ctx, &mut all);
+            let want = rep["signature"].as_str().unwrap_or("").to_string();
+            all.viol.retain(|k, _| *k == want);
+            c.merge(all);
+        }
         "slices" => {
             // small space: the sub-check is re-run and only the replayed signature kept
             let ctx = Ctx { only: Some(format!("slices/{vec}")), ..Ctx::from_args("C17").0 };
@@ -204,6 +213,7 @@ fn real_main() -> i32 {
     ops::run_ops(&ctx, &ops::types_f64x2(), &mut total);
     ops::run_ops(&ctx, &ops::types_f64x4(), &mut total);
     slices::run(&ctx, &mut total);
+    dark::run(&ctx, &mut total);
     alphaconv::run(&ctx, &mut total);
     hue::run_hues(&ctx, &hue::types_f32x4(), &mut total);
     hue::run_hues(&ctx, &hue::types_f32x8(), &mut total);
